@@ -97,4 +97,13 @@ theorem crash_points_cover_every_suspension :
     (crashPoints.filter (·.proc == "discover")).length = Coop.suspensions Skeletons.sk_async_locator__GeckoAsyncLocator_discover := by
   decide +kernel
 
+/-- **every background task is tracked as itself**: over the regenerated skeletons of the task registry, `add_task` writes no
+attribute and APPENDS the task it created to the registry (a list: two tasks started under the same name are two entries), and
+`cancel_key_tasks` cancels by walking the entries - what `disconnectCancelsSpaTasks` / `exitGathersAllTasks` take for granted -/
+theorem task_registry_tracks_every_task :
+    (Coop.selfStateWritten Skeletons.sk_async_tasks__AsyncTasks_add_task,
+     (Coop.actions .call Skeletons.sk_async_tasks__AsyncTasks_add_task).filter Coop.isSelfState) = ([], ["self._tasks.append"]) ∧
+    "task.cancel" ∈ Coop.actions .call Skeletons.sk_async_tasks__AsyncTasks_cancel_key_tasks ∧
+    Coop.selfStateWritten Skeletons.sk_async_tasks__AsyncTasks_cancel_key_tasks = [] := by decide +kernel
+
 end GeckoModel.C10
